@@ -96,8 +96,14 @@ pub fn check_tokens(front: &str, text: &str, src: &[char], toks: &[Token], plain
             TokenKind::Newline(n) => {
                 let ok = if plain { txt.iter().all(|c| *c == '\n') && *n == txt.len() } else { txt.iter().all(|c| c.is_whitespace()) };
                 if !zero && !ok {
-                    out.fails.push(("newline-shape".into(), format!("Newline({}) over {:?}", n, txt.iter().collect::<String>()), inp()));
-                    return;
+                    // recorded finding: Markdown's hard break `\`+newline is a Newline(2) of length 1 at
+                    // the start of the event's range, i.e. over the backslash
+                    let bs = !plain && front.starts_with("markdown") && txt == ['\\'];
+                    let class = if bs { "c02-md-backslash-hardbreak" } else { "newline-shape" };
+                    out.fails.push((class.into(), format!("Newline({}) over {:?}", n, txt.iter().collect::<String>()), inp()));
+                    if !bs {
+                        return;
+                    }
                 }
             }
             TokenKind::Punctuation(Punctuation::Quote(q)) => {
@@ -402,7 +408,7 @@ pub fn eval_ext_slice(text: &str) -> Out {
     out
 }
 
-fn merge(sess: &mut Session, o: Out) {
+pub fn merge(sess: &mut Session, o: Out) {
     let mut case = None;
     for (op, imp) in &o.k {
         case = Some(sess.k(op, imp));
@@ -432,6 +438,8 @@ pub fn run(ctx: &Ctx) {
         let front = v["frontend"].as_str().unwrap_or("plaintext").to_string();
         let o = if let Some(sl) = v["ext_slice"].as_str() {
             eval_ext_slice(sl)
+        } else if let Some(o) = crate::c02md::replay(&front, &text) {
+            o
         } else if front.starts_with("plaintext") {
             eval_plain(&text)
         } else {
@@ -634,8 +642,10 @@ pub fn run(ctx: &Ctx) {
         }
         merge(&mut sess, o);
     }
+    // --- K: the Markdown parser's own logic and the two wrapper parsers (c02md.rs) ---------
+    crate::c02md::run_into(&mut sess, ctx, &mut rng);
     sess.finish(
-        "K: PlainEnglish::parse vs the Lean lexer model, every text twice: op `lex` (url/e-mail/hostname tokens handed to the model as a table) and op `lexfull` (those three lexers computed by the model, nothing handed over), and Document::new(text, &PlainEnglish, dict).get_tokens() vs the Lean model of Document::parse (op `doc`: all condensing passes, quote twins, number suffixes), on (1) corpus of lexer corner cases incl. curated url / e-mail / hostname corner cases alone and embedded, (2) ALL strings of length ≤4 (quick) / ≤5 (thorough) over the alphabet {a,1,.,',space,tab,newline,s,0,x,[,],-,e} and over the alphabet {a,1,.,-,@,:,/,%,\",space,+,_,A,é}, and ALL sequences of ≤4 / ≤5 pieces from {a,b,.,',space,tab,newline,et,al,etc,Vs,1,st,\",nD,I}, (3) structured random texts (rule-test sentences mutated by truncation, spice splices, delimiter drops, long words, glued digits), random code points, and random url / address / host look-alikes; op `extlex`: lex_url / lex_email_address / lex_hostname_token / lex_hostname compiled from /repo and called directly on arbitrary slices (suffixes of the curated cases, ALL strings of length ≤4/5 over the second alphabet, random look-alikes), result lengths against the model and against 1 ≤ n ≤ slice length. O: the property's clauses (bounds, order, disjointness, zero-width only structural, plain tiling, per-kind shape, quote twins) on the final Document tokens of plain English and of every language id of the server's table (prose embedded in language-appropriate syntax, plus the repo's fixtures), also wrapped in CollapseIdentifiers / IsolateEnglish. Non-trivial = a plain text whose tokens have ≥3 distinct kinds; distinct by op line.",
+        "K: PlainEnglish::parse vs the Lean lexer model, every text twice: op `lex` (url/e-mail/hostname tokens handed to the model as a table) and op `lexfull` (those three lexers computed by the model, nothing handed over), and Document::new(text, &PlainEnglish, dict).get_tokens() vs the Lean model of Document::parse (op `doc`: all condensing passes, quote twins, number suffixes), on (1) corpus of lexer corner cases incl. curated url / e-mail / hostname corner cases alone and embedded, (2) ALL strings of length ≤4 (quick) / ≤5 (thorough) over the alphabet {a,1,.,',space,tab,newline,s,0,x,[,],-,e} and over the alphabet {a,1,.,-,@,:,/,%,\",space,+,_,A,é}, and ALL sequences of ≤4 / ≤5 pieces from {a,b,.,',space,tab,newline,et,al,etc,Vs,1,st,\",nD,I}, (3) structured random texts (rule-test sentences mutated by truncation, spice splices, delimiter drops, long words, glued digits), random code points, and random url / address / host look-alikes; op `extlex`: lex_url / lex_email_address / lex_hostname_token / lex_hostname compiled from /repo and called directly on arbitrary slices (suffixes of the curated cases, ALL strings of length ≤4/5 over the second alphabet, random look-alikes), result lengths against the model and against 1 ≤ n ≤ slice length. O: the property's clauses (bounds, order, disjointness, zero-width only structural, plain tiling, per-kind shape, quote twins) on the final Document tokens of plain English and of every language id of the server's table (prose embedded in language-appropriate syntax, plus the repo's fixtures), also wrapped in CollapseIdentifiers / IsolateEnglish. K (c02md.rs): op `mdparse` / `wikiclean` — pulldown-cmark's real events (variant, byte range, text length; same Options as markdown.rs) + the text → the Lean model of Markdown::parse (event loop, traversed_bytes/chars, tag stack, inner PlainEnglish parse computed by the model, trailing-break pop, remove_hidden_wikilink_tokens, remove_wikilink_brackets) vs the real Markdown::new(opts).parse, both ignore_link_title settings: corpus (the parser's tests, wikilink witnesses, repo fixtures), ALL concatenations of ≤4 (quick) / ≤5 (thorough) of 16 markup pieces {a, space, newline, *, `, [, ], (x), #, `- `, é, |, `> `, <b>, $, backslash} (option off; ≤3/≤4 with the option on), ALL concatenations of ≤6 of {[[, ]], |, a, space, backslash, [b](x)} (option off; ≤5/≤6 with the option on), random generated Markdown files / markup soup / wikilink soup with multi-byte text; the hypotheses of the Markdown theorems (EventsOK) are monitors on every event list. Ops `collapse`, `isolate`, `isolatev` — the real CollapseIdentifiers / IsolateEnglish over PlainEnglish and Markdown vs the model, the inner tokens and the dictionary's answers (resp. the real is_likely_english verdict per chunk) handed over: ALL concatenations of ≤5/≤6 of 9 identifier pieces, all chunks of ≤9 known/unknown words × 3 tails, random identifier and mixed-language texts. Non-trivial = a plain text whose tokens have ≥3 distinct kinds; distinct by op line.",
         true,
         json!({"exhaustive_scope": format!("all strings of length ≤{} over each of two 14-character alphabets; all sequences of ≤{} pieces over 16 pieces", maxlen, maxlen), "language_ids": ids}),
     );
